@@ -180,4 +180,41 @@ theorem selectBroadword_eq (x : BitVec 64) (k : Nat) : selectBroadword x k = sel
       rcases bwFindByte (Gen.broadword_byte_counts x) k 8 0 0 with ⟨bi, cum⟩
       simp only [Option.getD_some, target_byte_eq, selectInByteTable_eq]
       rfl
+
+/-- The byte-finding loop of `select_in_word_broadword` always breaks (for `k < popcount`), with a
+byte index below 8 and `cumulative ≤ k < cumulative + popcount(byte)`: the `u32` subtraction
+`k - cumulative`, the shift `x >> byte_offset` and the table index are all in range. -/
+theorem bwFindByte_in_range (x : BitVec 64) (bc : BitVec 64) (k : Nat)
+    (hbc : ∀ i, i < 8 → ((bc >>> (i * 8)) &&& 0xFF#64).toNat = bytePop (byteAt x i))
+    (fuel i cum : Nat) (hfi : i + fuel = 8)
+    (hcum : cum = ((wordBits x).take (8 * i)).count true) (hle : cum ≤ k) (hk : k < popcount x) :
+    (bwFindByte bc k fuel i cum).1 < 8 ∧ (bwFindByte bc k fuel i cum).2 ≤ k
+      ∧ k - (bwFindByte bc k fuel i cum).2 < bytePop (byteAt x (bwFindByte bc k fuel i cum).1) := by
+  induction fuel generalizing i cum with
+  | zero =>
+    have : i = 8 := by omega
+    subst this
+    rw [List.take_of_length_le (by simp)] at hcum
+    unfold popcount at hk; omega
+  | succ fuel ih =>
+    have hi : i < 8 := by omega
+    unfold bwFindByte
+    simp only [hbc i hi]
+    by_cases hgt : cum + bytePop (byteAt x i) > k
+    · rw [if_pos hgt]
+      exact ⟨hi, hle, by show k - cum < bytePop (byteAt x i); omega⟩
+    · rw [if_neg hgt]
+      apply ih (i + 1) (cum + bytePop (byteAt x i)) (by omega)
+      · rw [wordBits_take_byte x i hi, List.count_append, ← hcum]; rfl
+      · omega
+
+theorem broadword_in_range (x : BitVec 64) (k : Nat) (hk : k < popc x) :
+    (bwFindByte (Gen.broadword_byte_counts x) k 8 0 0).1 < 8
+      ∧ (bwFindByte (Gen.broadword_byte_counts x) k 8 0 0).2 ≤ k
+      ∧ k - (bwFindByte (Gen.broadword_byte_counts x) k 8 0 0).2 < 8 := by
+  have h := bwFindByte_in_range x (Gen.broadword_byte_counts x) k (broadword_byte_counts_eq x)
+    8 0 0 rfl (by simp) (Nat.zero_le _) (by rw [← popc_eq_popcount]; exact hk)
+  have hb := bytePop_le (byteAt x (bwFindByte (Gen.broadword_byte_counts x) k 8 0 0).1)
+  exact ⟨h.1, h.2.1, by omega⟩
+
 end SV.Kernels
